@@ -315,3 +315,25 @@ def gen_program(rng, nblocks=None):
         else:
             gen_noise(rng, src)
     return src
+
+
+TYPING_PREFIX = ["", "\n", "\n\n", "import pytest\n", "import pytest\n\n", "# comment\n", "x = 1\n\n", "\n@pytest.mark.skip\n\n"]
+TYPING_DECOS = ["@pytest.fixture\n", "@pytest.mark.skip\n", '@pytest.fixture(scope="module")\n', "\n", "@fixture\n",
+                "@pytest.mark.usefixtures(\n", '@pytest.mark.usefixtures("a", \n', "@pytest.mark.parametrize(\"x\", [1], indirect=True)\n",
+                "@pytest.fixture(scope='session')\n\n"]
+TYPING_DEFS = ["def test_a(", "def test_a(x, ", "def test_a(x):", "async def fx(", "def helper(", "def test_a", "def test_a(\n    x,\n",
+               "def test_a(x) -> None:", "def test_a():\n    ", "def fx(alpha, beta", "def test_é(", "def test_a(x\n):\n    y = ", "class TestK:\n    def test_m(self, ",
+               "def test_a(x):\n    pass\n\ndef test_b(", "pytestmark = pytest.mark.usefixtures(", "pytestmark = [pytest.mark.usefixtures(\"a\"), pytest.mark.usefixtures("]
+
+
+def typing_form(rng):
+    """a small document in one of the incomplete states an editor produces while a signature is typed"""
+    t = rng.choice(TYPING_PREFIX)
+    for _ in range(rng.choice([0, 0, 1, 1, 2, 3])):
+        t += rng.choice(TYPING_DECOS)
+    t += rng.choice(TYPING_DEFS)
+    if rng.random() < 0.3:
+        t += "\n"
+    if rng.random() < 0.15:
+        t += "\n" * rng.choice([1, 3])
+    return t
